@@ -90,6 +90,21 @@ class Rig(object):
         self.agent._rx_chain.append(m['util'].ChainStep(order=25, name='probe', action=probe))
         self.agent._rx_chain.sort()
 
+    def enable_security(self):
+        ''' a security association: HMAC-256 BIB over the payload block of every bundle (security policy on) '''
+        import re as _re
+        import bp.app.bpsec as bs
+        from pycose.keys import SymmetricKey, keyops
+        from pycose.keys.keyparam import KpAlg, KpKid, KpKeyOps
+        from pycose import algorithms
+        ctx = list(self.agent._app['bpsec']._contexts.values())[0]
+        key = SymmetricKey(k=bytes(range(32)), optional_params={
+            KpAlg: algorithms.HMAC256, KpKid: b'k1', KpKeyOps: [keyops.MacCreateOp, keyops.MacVerifyOp]})
+        ctx.sym_key_store[b'k1'] = key
+        ctx.sec_assoc.append(bs.SecAssociation(
+            src_pat=_re.compile('.*'), dst_pat=_re.compile('.*'), tgt_blk_types=[1],
+            templates=[bs.SecOperation(sec_type='bib', role='source', priv_key_id=b'k1')]))
+
     def set_mtu(self, mtu):
         self.route.mtu = mtu
 
